@@ -17,7 +17,7 @@ from ..pyvc.driver import Program, explore, call_function
 from ..pyvc.interp import SObj
 from . import c15_proofs as P15
 
-FLAGSETS = [["-O1"], ["-O3", "-fallocate-str-space-dynamic-on-demand", "-fdelete-string-free-memory"], ["-O0", "-fcodepoints-in-errors", "-fhook-per-state"]]
+FLAGSETS = [["-O1"], ["-O2", "-feof-support", "--collapsed-range-length", "0"], ["-O3", "-fallocate-str-space-dynamic-on-demand", "-fdelete-string-free-memory"], ["-O0", "-fcodepoints-in-errors", "-fhook-per-state"]]
 _CTX = {}
 
 
@@ -73,7 +73,8 @@ def matrix_programs():
     decls = {"bool": "out bool v;", "int": "out int v;", "enum": "out enum{A,B} v;", "str": "out str[8] v;", "ustr": "out unterminated str[8] v;", "raw": "out raw{uint32_t} v;"}
     rhs = {"string": '"ab"', "empty": '""', "istring": '"ab"i', "bstring": '"61"b', "number": "5", "hexnum": "-0x10", "char": "'a'", "bool": "true", "ident": "A", "undef": "nosuch", "math": "[v + 1]",
            "mathlen": "[v.len]", "mathidx": "[v[0]]", "last": "[$last]", "regex": "/a+/", "bregex": "b/61/", "end": "end", "concat": '("a" /b/)', "cmp": "[1 < 2]", "neg": "[-v]", "not": "[!v]",
-           "badescape": '"\\q"', "badhex": '"\\xzz"', "shorthex": '"\\x4"', "uescape": '"\\u1234"', "oddbin": '"abc"b', "bignum": "99999999999999999999", "charesc": "'\\0'"}
+           "badescape": '"\\q"', "badhex": '"\\xzz"', "shorthex": '"\\x4"', "uescape": '"\\u1234"', "oddbin": '"abc"b', "bignum": "99999999999999999999", "charesc": "'\\0'",
+           "emptybin": "0b", "negbin": "-0b1", "plushex": "+0x1f", "highcasei": '"stra\\xdfe"i', "highcasei2": '"\\xe9\\xb5"i', "wide": '"\u20ac"', "widecasei": '"\u0131\u017f"i', "nulstr": '"a\\x00b"'}
     out = []
     for (dk, d), (rk, r), op in itertools.product(decls.items(), rhs.items(), ("=", "+=")):
         src = f'{d}\nparser {{ "x"; v {op} {r}; "y"; }}\n'
@@ -87,10 +88,15 @@ def matrix_programs():
     stm = ["break;", "break nolabel;", "finish NOCODE;", "yield NOCODE;", "delete nosuch;", "nosuch();", "nosuch = 5;", "x += \"a\";", "loop { }", "loop { break; }", "optional { h(); }", "optional { optional { \"a\"; } }",
            "case { }", "case { else -> { } }", "case { \"a\" -> { } \"a\" -> { } }", "greedy case { \"a\" -> { } prio 1 \"a\" -> { } }", "try { } catch { }", "try { \"a\"; } catch (bogus) { }", "foreach { \"a\"; } do { \"b\"; }",
            "foreach { } do { h(); }", "if 1 { \"a\"; }", "if \"a\" { \"a\"; }", "if nosuch > 1 { \"a\"; }", "wait end;", "end;", "/a{3,1}/;", "/a{0}/;", "/a{100}/;", "/(a|a)/;", "/[z-a]/;", "\"\";", "wait \"\";", "\"\"i;", "\"\"b;",
-           "(\"a\");", "h(1, 2);", "$last;", "[1];", "h();", "finish;", "yield;", "macro_undefined(1);", "loop a { loop a { break a; \"x\"; } }"]
+           "(\"a\");", "h(1, 2);", "$last;", "[1];", "h();", "finish;", "yield;", "macro_undefined(1);", "loop a { loop a { break a; \"x\"; } }",
+           "optional { if x.len == 1 { \"a\"; } } \"b\";", "optional { if x.len == 1 { \"a\"; } else { \"c\"; } }", "case { \"a\" -> { } else -> { if x.len == 1 { \"b\"; } } }", "loop { if x.len == 1 { break; } \"a\"; }",
+           "/a{0,1200}/;", "/a{150}/;", "/(a{12}){12}/;", "wait /a{0,80}b/;", "x += /./; end; x += /[^a]/;", "\"stra\\xdfe\"i;", "\"\u20ac\";", "/\u20ac/;", "x = \"\u20ac\";",
+           "\x0c nosuch();", "\r nosuch();", "\x0c\n\x0c break;", "try { end; } catch { end; } end;"]
     for i, st in enumerate(stm):
         out.append({"name": f"matrix/stmt{i}", "src": "hook h;\nout str[4] x;\nparser { \"q\"; " + st + " \"z\"; }\n", "args": []})
-    macros = ["macro a() { a(); }\nparser { a(); }", "macro a() { b(); }\nmacro b() { a(); }\nparser { \"x\"; a(); }", "macro a(expr e) { n = [e]; }\nout int n;\nparser { \"x\"; a(e); }",
+    macros = ["macro a(expr e) { n = [e]; }\nmacro b(expr e) { a([e + 1]); }\nout int n;\nparser { \"x\"; b(5); }",
+              "macro a(match p) { p; }\nmacro b(match p) { a((p \"!\")); a((\"?\" p)); }\nparser { b(\"x\"); }",
+              "macro a() { a(); }\nparser { a(); }", "macro a() { b(); }\nmacro b() { a(); }\nparser { \"x\"; a(); }", "macro a(expr e) { n = [e]; }\nout int n;\nparser { \"x\"; a(e); }",
               "macro a(match m) { m; }\nparser { a(m); }", "macro a(out o) { o = 1; }\nparser { \"x\"; a(a); }", "macro a() { }\nparser { a(); \"x\"; }", "macro a(macro m) { m(m); }\nparser { \"x\"; a(a); }"]
     for i, m in enumerate(macros):
         out.append({"name": f"matrix/macro{i}", "src": m + "\n", "args": []})
